@@ -126,4 +126,52 @@ def rule_c(ctx):
     return r
 
 
-RULES = [rule_a, rule_b, rule_c]
+
+def rule_d(ctx):
+    r = RuleResult("C10-d", "selector registration is total: for every simple selector of a rule, ExtensionStore::register_selector records the rule under it and "
+                   "descends into the inner list of a selector pseudo, whatever the index already contains")
+    from . import loops as _loops
+    prog = ctx.prog()
+    b = prog.one("selector::extend::ExtensionStore::register_selector")
+    nl = _loops.natural_loops(b)
+    head = None
+    for h in nl:
+        c = b.call_at(h)
+        if c is not None and an.tail2(c.callee) == "Iterator::next" and c.fn_args and c.fn_args[0].endswith("IntoIter<grass_compiler::selector::simple::SimpleSelector>"):
+            head = h
+    if head is None:
+        raise AnchorMissing("register_selector: no loop over the simple selectors of a compound")
+    entry = None
+    pseudo_sw = None
+    for sw, ap, adt, variants, rv in common.discr_switches(b):
+        if ap.root[0] == "call" and ap.root[2] == head and not ap.proj and (adt or "").endswith("option::Option"):
+            for v, tb in b.term(sw)["ts"]:
+                if variants.get(v) == "Some":
+                    entry = tb
+        if ap.root[0] == "call" and ap.root[2] == head and ap.proj == ("as:Some", "0") and (adt or "").endswith("simple::SimpleSelector") and sw in nl[head] and pseudo_sw is None:
+            if any(variants.get(v) == "Pseudo" for v, tb in b.term(sw)["ts"]):
+                pseudo_sw = sw
+    if entry is None or pseudo_sw is None:
+        raise AnchorMissing("register_selector: loop entry / `if let SimpleSelector::Pseudo` not found")
+    inserts = {c.bb for c in b.calls() if c.bb in nl[head] and an.tail2(c.callee) in ("SelectorHashSet::insert", "HashSet::insert", "IndexSet::insert")}
+    rec = [c for c in b.calls() if c.bb in nl[head] and c.name() == b.path]
+    # (1) every iteration records the rule
+    key = "register_selector|every-simple-selector-recorded"
+    if entry in inserts or (inserts and an.reach_avoiding(b, entry, inserts, {head}) is None):
+        r.ok(key, insert_sites=len(inserts))
+    else:
+        r.violate(key, "register_selector can finish an iteration over a simple selector without inserting the rule into self.selectors", b.loc())
+    # (2) every iteration reaches the pseudo test, and the recursive call is inside it
+    key = "register_selector|pseudo-inner-list-always-visited"
+    skipped = an.reach_avoiding(b, entry, {pseudo_sw}, {head}) is not None and entry != pseudo_sw
+    if not rec:
+        r.violate(key, "register_selector no longer recurses into the inner selector list of :not()/:is()/:has()/:where()", b.loc())
+    elif skipped:
+        r.violate(key, "register_selector can skip the `if let SimpleSelector::Pseudo {selector: Some(..)}` test for a simple selector (e.g. when it is already "
+                  "indexed): rules whose :not()/:is() argument contains the @extend target are then not rewritten", "%s:%d" % (b.file, b.term(pseudo_sw)["span"]["l"]))
+    else:
+        r.ok(key)
+    return r
+
+
+RULES = [rule_a, rule_b, rule_c, rule_d]
